@@ -461,8 +461,8 @@ class IntegerFieldFormat(AbstractFieldFormat):
                 length = ranges.Range("1...%d" % self.length.upper_limit)
             try:
                 length_range = ranges.create_range_from_length(length)
-            except errors.RangeValueError as error:
-                raise errors.InterfaceError(str(error))
+            except (errors.RangeValueError, OverflowError) as error:
+                raise errors.InterfaceError("length must be usable for an integer field: %s" % error)
 
         has_rule = (rule is not None) and (rule.strip() != "")
         if has_rule:
